@@ -47,3 +47,13 @@ let () =
                 List [Atom "states"; Atom (string_of_int (List.length (DfaEquiv.states raw)));
                       Atom (string_of_int (List.length (DfaEquiv.states min)))]]
       | _ -> raise (Shape "validate args"))
+
+(* rawok <raw> -> (rawok <wfb> <trim_dec>)        [Spec/MinimizeSpec.v, Spec/DfaEquiv.v]
+   the executable hypotheses of theorem C03_minimise_checked, evaluated on Rust's raw automata *)
+let () =
+  register "rawok" (fun v ->
+      match v with
+      | List [d] ->
+          let (raw, _) = dfa_parts d in
+          List [Atom "rawok"; sb (Extracted.MinimizeSpec.wfb raw); sb (DfaEquiv.trim_dec raw)]
+      | _ -> raise (Shape "rawok args"))
